@@ -54,7 +54,7 @@ def run(ctx):
         raise vlib.Infra("program generation failed: %s\n%s" % (g.outcome, g.output[-2000:]))
     exhaustive = g.printed
     s = ctx.tlc("TxReadersGen", "TxReaders.Gen.cfg", workers=1, timeout=900, count_mc=False,
-                simulate="num=%d" % ctx.pick(1500, 12000), depth=14, seed=ctx.seed,
+                simulate="num=%d" % ctx.pick(800, 12000), depth=14, seed=ctx.seed,
                 subst={"KS": "{3, 4}", "MaxCloses": "3"})
     if s.outcome not in ("ok",) or not s.printed:
         raise vlib.Infra("program simulation failed: %s\n%s" % (s.outcome, s.output[-2000:]))
@@ -71,6 +71,8 @@ def run(ctx):
         for mode in ("storage", "direct"):
             if mode == "storage" and p["k"] == 0 and not p["fnerr"]:
                 continue  # GetObject without ranges returns one full-object reader: that is k = 1
+            if ctx.quick() and mode == "direct" and p["k"] == 2 and rnd.random() < 0.6:
+                continue  # quick: direct mode runs a seeded 40 % of the k = 2 programs (storage mode runs all)
             q = dict(p)
             q["mode"] = mode
             q["prog"] = len(progs) + 1
@@ -84,18 +86,31 @@ def run(ctx):
     vlib.write_ndjson(ctx.path("programs.ndjson"), progs)
     by_id = {p["prog"]: p for p in progs}
 
-    # 3. execute on the real code
-    drv = ctx.gobuild("txreaders", race=not ctx.quick())
+    # 3. execute on the real code (thorough: additionally a seeded sample and the concurrent rounds under the race detector)
+    drv = ctx.gobuild("txreaders")
     p = ctx.run([drv, ctx.path("programs.ndjson"), ctx.path("trace.ndjson"), ctx.path("scratch"), str(conc_iters)],
-                timeout=1800)
+                timeout=2400)
     ctx.log(p.stdout.strip().splitlines()[-1])
     if "read pool observable=true" not in p.stdout:
         raise vlib.Infra("the read pool of the sqlite database could not be observed (sqliteDatabase.readOnlyDb moved?)")
+    if not ctx.quick():
+        sub = [dict(q) for q in rnd.sample(progs[:-4], 6000)] + [dict(q) for q in progs[-4:]]
+        for i, q in enumerate(sub):
+            q["prog"] = len(progs) + i + 1
+        vlib.write_ndjson(ctx.path("programs-race.ndjson"), sub)
+        pr = ctx.run([ctx.gobuild("txreaders", race=True), ctx.path("programs-race.ndjson"), ctx.path("trace-race.ndjson"),
+                      ctx.path("scratch-race"), "100"], timeout=2400)
+        ctx.log("race:", pr.stdout.strip().splitlines()[-1])
+        with open(ctx.path("trace.ndjson"), "a") as f:
+            f.write(open(ctx.path("trace-race.ndjson")).read())
+        progs += sub
+        by_id = {q["prog"]: q for q in progs}
+    nconc_progs = sum(1 for q in progs if q["mode"] == "conc")
     trace = vlib.read_ndjson(ctx.path("trace.ndjson"))
     resets = [r for r in trace if r["t"] == "reset"]
     aborted = "aborted after" in p.stdout   # the driver stops early when programs keep leaking their transaction
-    if len(resets) != len(progs) - 4 and not aborted:
-        raise vlib.Infra("driver executed %d of %d programs" % (len(resets), len(progs) - 4))
+    if len(resets) != len(progs) - nconc_progs and not aborted:
+        raise vlib.Infra("driver executed %d of %d programs" % (len(resets), len(progs) - nconc_progs))
 
     # coverage of the actions the property depends on, measured on the log
     cov = {}
@@ -217,5 +232,5 @@ def run(ctx):
         "k <= 4 readers, <= 3 Close calls per reader, 3-part object of 24 bytes; larger k only by the symmetry of the counter",
     ]
     return ("programs = call sequences over Read/ReadToEnd/Close/ReadAfterClose on k readers generated by TLC from TxReaders.tla "
-            "(all sequences to depth 2k+3 for k<=2, seeded random walks for k=3,4), each executed in storage and direct mode; "
+            "(all sequences to depth 2k+3 for k<=2, seeded random walks for k=3,4), executed in storage and direct mode (quick: direct mode on a seeded 40 % of the k=2 programs); "
             "non-trivial = some reader is read after a different reader was closed")
